@@ -164,6 +164,53 @@ pub fn judge(t: &Target, input: &str, lexer_mode: u8, rep: &mut Rep, curfile: &O
     }
 }
 
+/// One parser object (default lexer) over the whole input list of a target: every call must return, whatever the
+/// calls before it were (accepted, rejected, layout of other lengths, multi-byte text).
+pub fn judge_history(t: &Target, inputs: &[String], rep: &mut Rep, curfile: &Option<String>) {
+    if inputs.len() < 2 || std::env::var_os("RUSTEMO_TRACE").is_some() {
+        return;
+    }
+    let glr = t.spec.glr;
+    let hist: Vec<&str> = inputs.iter().filter(|i| i.len() < 400).take(40).map(|s| s.as_str()).collect();
+    let case = |upto: usize| json!({"grammar": t.text, "grammar_name": t.name, "settings": t.spec.to_json(), "history": &hist[..upto], "lexer": 0});
+    if let Some(cf) = curfile {
+        let _ = std::fs::write(cf, case(hist.len()).to_string());
+    }
+    crate::rep::watchdog::set(|| case(hist.len()).to_string());
+    let mut done = 0usize;
+    let budget = |i: &str| 20_000 * (i.len() as u64 + 1);
+    let r = guarded(|| {
+        if glr {
+            t.dy.glr_session(|parse| {
+                for i in &hist {
+                    crate::rep::watchdog::touch();
+                    dynp::set_step_limit(budget(i));
+                    let _ = parse(i);
+                    done += 1;
+                }
+            })
+        } else {
+            t.dy.lr_session(|parse| {
+                for i in &hist {
+                    crate::rep::watchdog::touch();
+                    dynp::set_step_limit(budget(i));
+                    let _ = parse(i);
+                    done += 1;
+                }
+            })
+        }
+    });
+    rep.count("parser_object_histories", 1);
+    rep.count("parser_object_parses", done as u64);
+    let sig = |k: &str, upto: usize| format!("reuse-{}:{}:{}:{}", k, fnv(&t.text), fnv(&t.spec.to_json().to_string()), fnv(&hist[..upto].join("\u{1}")));
+    match r {
+        Ok(()) => {}
+        Err(Some(m)) => rep.violation("C15", &sig("panic", done + 1), &format!("{} parser object that had parsed {} input(s) before panicked on {:?}: {}", if glr { "GLR" } else { "LR" }, done, hist[done.min(hist.len() - 1)].chars().take(80).collect::<String>(), m), case((done + 1).min(hist.len()))),
+        // a hang inside a history: the single-input pass decides whether that input hangs on its own (listed findings)
+        Err(None) => rep.count("history_step_budget_exceeded_not_judged_here", 1),
+    }
+}
+
 const NOISE: &[&str] = &[
     "", " ", "\n", "\r\n", "\t", "\u{0}", "\u{1}\u{7f}", "a\u{301}", "\u{301}", "𝄞", "\u{feff}", "\u{feff}a", "é", "aé", "éa", "a\u{a0}b", "\u{2028}", "\u{85}", "\u{200b}", "ÿ", "\u{d7ff}\u{e000}", "\u{10ffff}", "ab\u{0}c", "\\", "'", "\"", "/*", "//", "/* a", "*/",
 ];
@@ -317,6 +364,10 @@ pub fn main(a: &Args) {
         let case = &v["case"];
         let spec = SetSpec::from_json(&case["settings"]);
         if let Some(t) = mk_target(case["grammar_name"].as_str().unwrap_or("replay"), case["grammar"].as_str().unwrap(), &spec, &wd, &mut rep) {
+            if let Some(h) = case["history"].as_array() {
+                let hist: Vec<String> = h.iter().map(|x| x.as_str().unwrap().to_string()).collect();
+                judge_history(&t, &hist, &mut rep, &None);
+            }
             if let Some(input) = case["input"].as_str() {
                 judge(&t, input, case["lexer"].as_u64().unwrap_or(0) as u8, &mut rep, &curfile);
                 if let Some(cf) = &curfile {
@@ -472,6 +523,7 @@ pub fn main(a: &Args) {
                     ins.push(s);
                 }
             }
+            judge_history(&t, &ins, &mut rep, &curfile);
             for input in ins {
                 judge(&t, &input, *rng.pick(lexer_modes), &mut rep, &curfile);
             }
